@@ -225,14 +225,14 @@ Qed.
 Theorem mt_apply_bin_mfun : forall op s c f g,
   MtOK s -> MCacheOK cget s c -> ref_ok s f -> ref_ok s g ->
   exists s' c' r, mt_apply_bin gt C cget cadd (FUEL s) s c op f g = Some (s', c', r) /\
-    MtOK s' /\ mext s s' /\
+    MtOK s' /\ mext s s' /\ ref_ok s' r /\
     forall a, mfun_of s' r a = mop_eval op (mfun_of s f a) (mfun_of s g a).
 Proof.
   intros op s c f g B O Hf Hg.
   destruct (denm_exists s f B Hf) as [phi Df]. destruct (denm_exists s g B Hg) as [psi Dg].
   destruct (mt_apply_bin_ok gt C cget cadd Hlossy op (FUEL s) s c f g phi psi B O Df Dg
               ltac:(unfold FUEL; lia)) as [s' [c' [r [E [B' [X [_ [D' _]]]]]]]].
-  exists s', c', r. split; [exact E|]. split; [exact B'|]. split; [exact X|].
+  exists s', c', r. split; [exact E|]. split; [exact B'|]. split; [exact X|]. split; [apply (proj1 D')|].
   intros a. rewrite (mfun_of_den s' r _ D'), (mfun_of_den s f phi Df), (mfun_of_den s g psi Dg).
   unfold choice_of. rewrite (mx_l2v _ _ X). reflexivity.
 Qed.
@@ -487,7 +487,7 @@ Hypothesis Hlossy : lossy cget cadd.
 Theorem mt_restrict_mfun : forall s c f vars lits,
   MtOK s -> MCacheOK cget s c -> ref_ok s f -> Cube s vars lits ->
   exists s' c' r, mt_restrict C cget cadd (FUEL s) s c f vars = Some (s', c', r) /\
-    MtOK s' /\ mext s s' /\
+    MtOK s' /\ mext s s' /\ ref_ok s' r /\
     forall a, mfun_of s' r a = mfun_of s f (force_asg s lits a).
 Proof.
   intros s c f vars lits B O Hf Hcube. pose proof (mo_wf s B) as H.
@@ -495,7 +495,7 @@ Proof.
   pose proof (rlevel_le s H f).
   destruct (mt_restrict_ok C cget cadd Hlossy (FUEL s) s c f vars phi lits B O Df Hcube
               ltac:(unfold FUEL; lia)) as [s' [c' [r [E [B' [X [_ [D' _]]]]]]]].
-  exists s', c', r. split; [exact E|]. split; [exact B'|]. split; [exact X|].
+  exists s', c', r. split; [exact E|]. split; [exact B'|]. split; [exact X|]. split; [apply (proj1 D')|].
   intros a. rewrite (mfun_of_den s' r _ D'), (mfun_of_den s f phi Df).
   assert (Ec : forall l, choice_of s' a l = choice_of s a l)
     by (intros l; unfold choice_of; rewrite (mx_l2v _ _ X); reflexivity).
@@ -512,7 +512,7 @@ Theorem mt_apply_ite_mfun : forall (C : Type) cget cadd, lossy cget cadd ->
   forall s (c : C) f g h,
   MtOK s -> MCacheOK cget s c -> ref_ok s f -> ref_ok s g -> ref_ok s h ->
   exists s' c' r, mt_apply_ite C cget cadd (FUEL s) s c f g h = Some (s', c', r) /\
-    MtOK s' /\ mext s s' /\
+    MtOK s' /\ mext s s' /\ ref_ok s' r /\
     forall a, mfun_of s' r a =
       if i64_is_zero (mfun_of s f a) then mfun_of s h a else mfun_of s g a.
 Proof.
@@ -521,7 +521,7 @@ Proof.
   destruct (denm_exists s h B Hh) as [theta Dh].
   destruct (mt_apply_ite_ok C cget cadd L (FUEL s) s c f g h phi psi theta B O Df Dg Dh
               ltac:(unfold FUEL; lia)) as [s' [c' [r [E [B' [X [_ [D' _]]]]]]]].
-  exists s', c', r. split; [exact E|]. split; [exact B'|]. split; [exact X|].
+  exists s', c', r. split; [exact E|]. split; [exact B'|]. split; [exact X|]. split; [apply (proj1 D')|].
   intros a. rewrite (mfun_of_den s' r _ D'), (mfun_of_den s f phi Df), (mfun_of_den s g psi Dg),
     (mfun_of_den s h theta Dh).
   unfold choice_of. rewrite (mx_l2v _ _ X). reflexivity.
